@@ -5,6 +5,7 @@ here instantiated at an arbitrary field `K` (of characteristic ≠ 2 where a hal
 about the coefficient tables the translator regenerates from `_convolve.cpp` on every run.
 -/
 import Mahotas.Proofs.C17
+import Mahotas.Proofs.C17PR
 namespace Mahotas.C17
 open Mahotas
 
@@ -169,6 +170,49 @@ theorem C17_decenter_center {α : Type} (N0 N1 d0 d1 : Nat) (cval : α) (f : Im 
   have c : d0 ≤ y + d0 ∧ y + d0 < d0 + N0 ∧ d1 ≤ x + d1 ∧ x + d1 < d1 + N1 := by omega
   simp [decenter, center, c]
 
+/-- **C17-T6 (`pr_exact`, rows).** For every filter length 4, 6, …, 20 (the lengths of `D4 … D20`) and every
+coefficient list satisfying the quadrature-mirror identities `Σ_k c_k c_{k+2s} = 2·δ_s` *exactly*, the model of
+`iwavelet` applied to the model of `wavelet` returns every sample of an even-length row at the positions
+`x ≥ ncoeffs − 2` — for **every** row content (no support hypothesis). The bound is forced by the code: it reads
+zeros outside `[0,N)`, so analysis coefficients of negative index do not exist, and its truncating `xmap2/2`
+adds a spurious tap below `ncoeffs − 2`. -/
+theorem C17_pr_exact_row {K : Type} [Field K] (h2 : (2 : K) ≠ 0) (cs : List K) (hl : cs.length ∈ prLengths)
+    (hq : qmfExact cs) (N : Nat) (hN : N % 2 = 0) (f : Nat → K) (x : Nat) (hx : cs.length ≤ x + 2)
+    (hxN : x < N) : iwaveletRow cs N (waveletRow cs N f) x = f x :=
+  pr_list h2 cs hl hq N hN f x hx hxN
+
+/-- **C17-T6 (`pr_exact`, images).** With exactly quadrature-mirror coefficients of length 4 … 20,
+`idaubechies(daubechies(f))` (rows then columns; columns then rows) returns `f` at every pixel `(y, x)` with
+`y, x ≥ ncoeffs − 2` of every image with even sides. -/
+theorem C17_pr_exact {K : Type} [Field K] (h2 : (2 : K) ≠ 0) (cs : List K) (hl : cs.length ∈ prLengths)
+    (hq : qmfExact cs) (N0 N1 : Nat) (h0 : N0 % 2 = 0) (h1 : N1 % 2 = 0) (f : Im K) (y x : Nat)
+    (hy : cs.length ≤ y + 2) (hyN : y < N0) (hx : cs.length ≤ x + 2) (hxN : x < N1) :
+    idaubechies2 cs N0 N1 (daubechies2 cs N0 N1 f) y x = f y x := by
+  show iwaveletRow cs N1 (fun x' => iwaveletRow cs N0
+      (fun k => waveletRow cs N0 (fun k' => waveletRow cs N1 (f k') x') k) y) x = f y x
+  have e : (fun x' => iwaveletRow cs N0
+      (fun k => waveletRow cs N0 (fun k' => waveletRow cs N1 (f k') x') k) y)
+      = waveletRow cs N1 (f y) := by
+    funext x'
+    exact pr_list h2 cs hl hq N0 h0 (fun k' => waveletRow cs N1 (f k') x') y hy hyN
+  rw [e]
+  exact pr_list h2 cs hl hq N1 h1 (f y) x hx hxN
+
+/-- **C17-T6 (reconstruction after `wavelet_center`).** If the image is embedded at offsets
+`d0, d1 ≥ ncoeffs − 2` (what `wavelet_center(border ≥ ncoeffs − 3)` guarantees by `C17_center_margin`) into an
+even-sided image, then `wavelet_decenter(idaubechies(daubechies(wavelet_center(f))))` is `f` at every pixel,
+for exactly quadrature-mirror coefficients, whatever the fill value. With the float32 tables (identities
+within 3·10⁻⁶, `C17_tables_qmf_eps`) this is the "equal up to rounding" of the statement, which the
+correspondence run checks at `1e-5·max|f|`. -/
+theorem C17_reconstruction_centered {K : Type} [Field K] (h2 : (2 : K) ≠ 0) (cs : List K)
+    (hl : cs.length ∈ prLengths) (hq : qmfExact cs) (N0 N1 d0 d1 M0 M1 : Nat) (cval : K)
+    (hM0 : M0 % 2 = 0) (hM1 : M1 % 2 = 0) (hd0 : cs.length ≤ d0 + 2) (hd1 : cs.length ≤ d1 + 2)
+    (hf0 : d0 + N0 ≤ M0) (hf1 : d1 + N1 ≤ M1) (f : Im K) (y x : Nat) (hy : y < N0) (hx : x < N1) :
+    decenter d0 d1 (idaubechies2 cs M0 M1 (daubechies2 cs M0 M1 (center N0 N1 d0 d1 cval f))) y x = f y x := by
+  show idaubechies2 cs M0 M1 (daubechies2 cs M0 M1 (center N0 N1 d0 d1 cval f)) (y + d0) (x + d1) = f y x
+  rw [C17_pr_exact h2 cs hl hq M0 M1 hM0 hM1 _ (y + d0) (x + d1) (by omega) (by omega) (by omega) (by omega)]
+  exact C17_decenter_center N0 N1 d0 d1 cval f y x hy hx
+
 /-- **C17-T5 (the embedding leaves the requested margin).** Whatever `_wavelet_center_compute` returns,
 the new side lengths are powers of two `2^(⌊log₂ o⌋ + c)` with one common `c ≥ 1`, the offsets are
 `(new − old)/2`, and every offset exceeds the requested `border` — so at least `border + 1` samples of
@@ -209,3 +253,13 @@ theorem C17_tables_qmf_eps :
 example : haar2 true 2 2 (fun y x => ((3 * y + x + 1 : Nat) : Rat)) 0 0 = 6 ∧
     ihaar2 true 2 2 (haar2 true 2 2 (fun y x => ((3 * y + x + 1 : Nat) : Rat))) 1 0 = 4 := by
   constructor <;> norm_num [haar2, ihaar2, colsPass, rowsPass, haarRow, ihaarRow, two, zero]
+
+/-- non-vacuity of `C17_pr_exact`: a rational four-tap filter with the identities exactly
+(`cos t = 3/5`, `sin t = 4/5` in the D4 family) -/
+example : qmfExact ([3 / 5, 6 / 5, 2 / 5, -1 / 5] : List Rat) ∧
+    ([3 / 5, 6 / 5, 2 / 5, -1 / 5] : List Rat).length ∈ prLengths := by
+  constructor
+  · intro s hs
+    have : s = 0 ∨ s = 1 := by simp at hs; omega
+    rcases this with rfl | rfl <;> norm_num [List.range_succ]
+  · decide
